@@ -284,10 +284,77 @@ def wiring(ctx):
     ctx.fuc("tempest.core", "SamplerCore.__init__")
 
 
+VALIDATED = ("n_dim", "n_particles", "ess_ratio", "volume_variation", "sample", "resample", "vectorize", "blobs_dtype", "periodic",
+             "reflective", "n_steps", "n_max_steps", "clustering", "normalize", "cluster_every", "split_threshold", "n_max_clusters",
+             "pool", "prior_transform", "random_state", "output_dir", "output_label")
+
+
+def forwarding(ctx):
+    """The contract above is stated on SamplerConfig.__post_init__: the public constructor must hand it the user's own values.
+    Sampler.__init__ passes every validated option to SamplerConfig(...) as the bare parameter (no conversion, truncation or
+    defaulting in between); the likelihood goes through FunctionWrapper, which only stores it.  A non-identity argument is
+    *undecided* here (a conversion may be harmless) and is settled by the native construction contract (c18_config)."""
+    idx = eff.qualname_index(ctx.mods)
+    f = idx.get(("tempest.sampler", "Sampler.__init__"))
+    ctx.fuc("tempest.sampler", "Sampler.__init__")
+    if f is None:
+        ctx.add(ObResult("C18/forwarding/Sampler.__init__/exists", "error", detail="not found"))
+        return
+    params = {a.arg for a in f.args.args + f.args.kwonlyargs}
+    calls = [n for n in ast.walk(f) if isinstance(n, ast.Call) and (eff.dotted(n.func) or "").split(".")[-1] == "SamplerConfig"]
+    if len(calls) != 1:
+        ctx.add(ObResult("C18/forwarding/one-SamplerConfig-construction", "unknown", detail=f"{len(calls)} SamplerConfig(...) calls in Sampler.__init__")).replayer = "c18_config"
+        return
+    call = calls[0]
+    rebinds = {}
+    for n in ast.walk(f):
+        tg = n.targets if isinstance(n, ast.Assign) else ([n.target] if isinstance(n, (ast.AugAssign, ast.AnnAssign)) else [])
+        for t in tg:
+            for x in ast.walk(t):
+                if isinstance(x, ast.Name) and x.id in params and isinstance(x.ctx, ast.Store):
+                    rebinds.setdefault(x.id, []).append(n.lineno)
+    for name in VALIDATED:
+        if name not in params:
+            continue
+        e = kwarg_expr(call, name)
+        got = ast.unparse(e) if e is not None else None
+        ok = got == name and name not in rebinds
+        why = "" if ok else (f"SamplerConfig({name}=...) receives `{got}`" + (f"; `{name}` is re-bound at line(s) {rebinds[name]}" if name in rebinds else "") +
+                             f": the value validated is not the value the user passed")
+        r = ctx.add(ObResult(f"C18/forwarding/Sampler.__init__:{name}-reaches-SamplerConfig-unchanged", "discharged" if ok else "unknown", "pyvc-eff",
+                             0.0, 1, why, kind="effect", line=call.lineno))
+        r.replayer = "c18_config"
+    if call.args:
+        ctx.add(ObResult("C18/forwarding/keyword-only-construction", "unknown", detail="positional arguments in SamplerConfig(...)")).replayer = "c18_config"
+
+
+def bounded_runs(ctx):
+    """'Every combination of valid option values runs to completion': not a contract on one call (termination, numerical
+    exceptions).  Bounded stand-in named by the property's own quantifier: a pairwise (quick) / 3-wise (thorough) covering array of
+    the option product, each configuration run natively with the run postconditions checked."""
+    import os
+    from pyvc import replay
+    strength = 3 if os.environ.get("VERIF_TIER") == "thorough" else 2
+    res = replay.run_replayer("c18_run", {"input": None, "strength": strength, "seed": int(os.environ.get("VERIF_SEED", "0") or 0)}, timeout=3000)
+    ctx.bounded.append({"clause": "every combination of valid option values runs to completion and satisfies the run postconditions",
+                        "bound": f"{strength}-wise covering array over 13 option factors (replayers/c18_run.py), n_total=64, 2-d target", "result": res,
+                        "cases": res.get("tried")})
+    st = "violated" if res.get("reproduced") else ("discharged" if res.get("tried") else "unknown")
+    r = ObResult(f"C18/native/valid-configurations-run-to-completion:{strength}-wise", st, "native", 0.0, 1, str(res.get("detail")), kind="bounded",
+                 witness={"replayer": "c18_run", "input": res.get("input")})
+    r.replayer = "c18_run"
+    r.replayed = res
+    ctx.add(r)
+
+
 def run(ctx):
     ctx.parallel(well_typed_product(ctx) + ill_typed(ctx))
     no_likelihood_call_at_construction(ctx)
     wiring(ctx)
+    forwarding(ctx)
+    from . import c08
+    c08.picklable_core(ctx, replayer="c18_run")
+    bounded_runs(ctx)
     # O4: inter-component preconditions along a run, for every valid configuration (cluster_every >= 1, clustering on/off, both
     # resamplers): the contracts proved under C14 are re-established here so that a constructor/Trainer pair that disagrees on the
     # "not fitted yet" sentinel, or a pipeline order that breaks a callee's precondition, fails under this property too
